@@ -14,23 +14,26 @@ open SwayVerif.Doc
 astral, CRLF/LF), all ranges, all replacement texts. -/
 theorem C23_sync (doc : List Char) (r : Option Range) (text doc' : List Char)
     (h : clientApply doc r text = some doc') : serverApply doc r text = .ok doc' := by
-  sorry
+  rw [serverApply_eq, h]
 
 /-- An invalid range (start after end, or a position inside a surrogate pair) is rejected; `Res.err`
 carries no document, i.e. the server's copy is unaltered. -/
 theorem C23_invalid_rejected (doc : List Char) (r : Option Range) (text : List Char)
     (h : clientApply doc r text = none) : serverApply doc r text = .err := by
-  sorry
+  rw [serverApply_eq, h]
 
 /-- No change crashes the server. -/
 theorem C23_no_panic (doc : List Char) (r : Option Range) (text : List Char) :
     serverApply doc r text ≠ .panic := by
-  sorry
+  rw [serverApply_eq]
+  cases clientApply doc r text <;> simp
 
 /-- The decidable predicate the driver evaluates on the implementation's result holds of the model. -/
 theorem C23_prop_of_model (doc : List Char) (r : Option Range) (text : List Char) :
     propHolds doc r text (serverApply doc r text) = true := by
-  sorry
+  rw [serverApply_eq]
+  unfold propHolds
+  cases clientApply doc r text <;> simp
 
 /-- Histories. Server: an `err` leaves the document as it was. Client: it never applies an invalid
 change. -/
@@ -49,7 +52,14 @@ def clientRun (doc : List Char) : List (Option Range × List Char) → List Char
 /-- After every history of full and incremental changes the two copies are equal. -/
 theorem C23_history (doc : List Char) (h : List (Option Range × List Char)) :
     serverRun doc h = clientRun doc h := by
-  sorry
+  induction h generalizing doc with
+  | nil => rfl
+  | cons e h ih =>
+    obtain ⟨r, t⟩ := e
+    simp only [serverRun, clientRun, serverApply_eq]
+    cases clientApply doc r t with
+    | none => exact ih doc
+    | some d => exact ih d
 
 /-! Non-vacuity: concrete non-ASCII, astral, CRLF and clamped instances meet the hypotheses. -/
 example : clientApply ['é', 'a', '\n'] (some ⟨⟨0, 1⟩, ⟨0, 1⟩⟩) ['X'] = some ['é', 'X', 'a', '\n'] := by decide
